@@ -91,16 +91,17 @@ Definition sibling_base (root : tree) (p : loc) : option (loc * nat * nat) :=
       end
   end.
 
-(* Node::next_all / prev_all (non-wasm) *)
+(* Node::next_all (non-wasm: a cursor positioned in the parent by byte offset) *)
 Definition next_all (root : tree) (p : loc) : list loc :=
   match sibling_base root p with
   | Some (pp, i, n) => map (fun j => pp ++ [j]) (seq (S i) (n - S i))
   | None => []
   end.
+(* prev_all walks the nodes' own sibling links (fix b516f38): the iterated [prev_loc], nearest first *)
 Definition prev_all (root : tree) (p : loc) : list loc :=
-  match sibling_base root p with
-  | Some (pp, i, _) => map (fun j => pp ++ [j]) (rev (seq 0 i))
-  | None => []
+  match get root p, parent_loc p with
+  | Some _, Some pp => map (fun j => pp ++ [j]) (rev (seq 0 (last p 0)))
+  | _, _ => []
   end.
 
 (* Node::next / prev: tree-sitter's own sibling links *)
